@@ -102,7 +102,7 @@ class Ctx:
                     return k
         return None
 
-    def finish(self):
+    def finish(self, write_evidence=True):
         new = []
         known = {}
         for f in self.failures:
@@ -138,7 +138,8 @@ class Ctx:
                 print("VIOLATION property=%s replay=%s" % (self.pid, p))
                 print("  why: %s | sig: %s" % (f["why"], f["sig"]))
             rc = 1
-        self.write_evidence(len(new), known)
+        if write_evidence:
+            self.write_evidence(len(new), known)
         return rc
 
     def write_evidence(self, nviol, known):
